@@ -8,7 +8,7 @@ claimed={}
 for f in sorted(glob.glob(V+'/props/*.json')):
     p=json.load(open(f)); claimed[p['id']]=p
 hooks=subprocess.run(['git','-C','/repo','log','--format=%H %s'],capture_output=True,text=True).stdout.strip().split('\n')
-hook_commits=[l.split()[0] for l in hooks if ' verif:' in ' '+l.split(' ',1)[1][:7] or l.split(' ',1)[1].startswith('verif:')]
+hook_commits=[l.split()[0] for l in hooks if l.split(' ',1)[1].startswith('verif:') or l.split(' ',1)[1].startswith('verif hooks:')]
 checks=[]
 for pid in props:
     if pid not in claimed: continue
